@@ -629,8 +629,39 @@ func (it *Interp) store(addr Value, v Value) {
 	panic(fmt.Sprintf("store: %T", addr))
 }
 
+// toArray builds an SMT array term equal to the current contents of cells.  Cells
+// that already read select(B, i) from a common base B cost nothing.
+func (it *Interp) toArray(cells []Value) *Term {
+	c := it.ctx
+	w := int(cells[0].(*Term).w)
+	var base *Term
+	// most cells after a symbolic store are select(B, i): take B from the first such cell
+	for _, cv := range cells {
+		t := cv.(*Term)
+		if t.op == OpSelect && t.b.IsConst() {
+			base = t.a
+			break
+		}
+	}
+	if base == nil {
+		base = c.ConstArr(0, w)
+	}
+	arr := base
+	for i, cv := range cells {
+		t := cv.(*Term)
+		if c.Select(base, c.BV(uint64(i), 64)) == t {
+			continue
+		}
+		arr = c.Store(arr, c.BV(uint64(i), 64), t)
+	}
+	return arr
+}
+
 func (it *Interp) symLoad(p *SymRef) Value {
 	c := it.ctx
+	if p.arr {
+		return c.Select(it.toArray(p.cells), p.idx)
+	}
 	// bounds already established when the SymRef was created
 	var r *Term
 	for i := len(p.cells) - 1; i >= 0; i-- {
@@ -647,6 +678,13 @@ func (it *Interp) symLoad(p *SymRef) Value {
 func (it *Interp) symStore(p *SymRef, v Value) {
 	c := it.ctx
 	nv := v.(*Term)
+	if p.arr {
+		arr := c.Store(it.toArray(p.cells), p.idx, nv)
+		for i := range p.cells {
+			p.cells[i] = c.Select(arr, c.BV(uint64(i), 64))
+		}
+		return
+	}
 	for i := range p.cells {
 		old := p.cells[i].(*Term)
 		p.cells[i] = c.Ite(c.Eq(p.idx, c.BV(uint64(i), 64)), nv, old)
@@ -676,8 +714,8 @@ func (it *Interp) indexAddr(x Value, idx *Term, instr *ssa.IndexAddr) Value {
 	}
 	it.boundsCheck(idx, len(cells))
 	if len(cells) > 0 {
-		if _, scalar := cells[0].(*Term); scalar && len(cells) > 1 {
-			return &SymRef{cells: cells, idx: idx}
+		if t, scalar := cells[0].(*Term); scalar && len(cells) > 1 {
+			return &SymRef{cells: cells, idx: idx, arr: len(cells) > 64 && t.w > 0}
 		}
 	}
 	// non-scalar cells: if the pointer is only loaded from and every cell holds the same
@@ -763,8 +801,8 @@ func (it *Interp) index(x Value, idx *Term, instr *ssa.Index) Value {
 		}
 		it.boundsCheck(idx, len(x))
 		if len(x) > 0 {
-			if _, scalar := x[0].(*Term); scalar {
-				return it.symLoad(&SymRef{cells: x, idx: idx})
+			if t, scalar := x[0].(*Term); scalar {
+				return it.symLoad(&SymRef{cells: x, idx: idx, arr: len(x) > 64 && t.w > 0})
 			}
 		}
 		return copyVal(x[it.concretizeInt(idx, true)])
